@@ -2420,5 +2420,95 @@ theorem transpose_transpose_toRows (m : Matrix α) (h : m.Inv) :
     rw [cell_transpose_toRows t hinv i j (by rw [htc]; exact hi) (by rw [htr]; exact hj),
       ← cell_toRows t j i, ht, cell_transpose_toRows m h j i hj hi, cell_toRows]
 
+/-! ## 17. layout: the storage is the concatenation of the rows, offset `r·columns + c` -/
+
+theorem flatten_getElem?_rect {c : Nat} (rs : Rows α) (h : Rect c rs) (i j : Nat)
+    (hi : i < rs.length) (hj : j < c) : rs.flatten[i * c + j]? = Rows.cell rs i j := by
+  have h1 := cell_toRows (ofRows rs c) i j
+  rw [toRows_ofRows rs h] at h1
+  rw [h1]
+  simp only [tryGet, ofRows, getIndex, hi, hj, and_self, if_true, Nat.add_comm]
+
+theorem range_filterMap_getElem? (l : List α) :
+    (List.range l.length).filterMap (fun n => l[n]?) = l := by
+  induction l with
+  | nil => rfl
+  | cons a l ih =>
+    simp only [List.length_cons, List.range_succ_eq_map, List.filterMap_cons,
+      List.getElem?_cons_zero, List.filterMap_map]
+    congr 1
+
+/-- walking the index pairs in row-major order and reading through the checked getter
+    reproduces the storage -/
+theorem rowMajor_tryGet_eq_data (m : Matrix α) (h : m.Inv) :
+    (indexPairs m.rows m.columns).filterMap (fun p => m.tryGet p.1 p.2) = m.data := by
+  rw [indexPairs_eq_range_map m.rows m.columns h.2.2, List.filterMap_map, ← h.1]
+  refine Eq.trans ?_ (range_filterMap_getElem? m.data)
+  apply filterMap_congr'
+  intro n hn
+  have hn' : n < m.rows * m.columns := by rw [← h.1]; exact List.mem_range.mp hn
+  have hc : 0 < m.columns := h.2.2
+  have hr : n / m.columns < m.rows :=
+    (Nat.div_lt_iff_lt_mul hc).mpr hn'
+  simp only [Function.comp, tryGet, getIndex, hr, Nat.mod_lt n hc, and_self, if_true]
+  congr 1
+  have := Nat.div_add_mod n m.columns
+  rw [Nat.mul_comm] at this
+  omega
+
+/-! ## 18. Display -/
+
+theorem formatRowLoop_ok (get : Nat → Option String) (columns : Nat) :
+    ∀ (L : List Nat), (∀ c ∈ L, ∃ v, get c = some v) →
+      formatRowLoop get columns L =
+        .ok ((L.filterMap fun c =>
+          (get c).map fun v => v :: (if c < columns - 1 then [", "] else [])).flatten) := by
+  intro L
+  induction L with
+  | nil => intro _; rfl
+  | cons c L ih =>
+    intro h
+    obtain ⟨v, hv⟩ := h c List.mem_cons_self
+    simp only [formatRowLoop, hv, ih (fun c' hc' => h c' (List.mem_cons_of_mem _ hc')),
+      List.filterMap_cons, Option.map_some, List.flatten_cons, List.cons_append]
+
+theorem formatRowsLoop_ok (row : Nat → Outcome (List String)) (g : Nat → List String) (rows : Nat) :
+    ∀ (L : List Nat), (∀ r ∈ L, row r = .ok (g r)) →
+      formatRowsLoop row rows L =
+        .ok ((L.map fun r =>
+          (if 0 < r then ["  "] else []) ++ g r ++ (if r < rows - 1 then ["\n"] else [])).flatten) := by
+  intro L
+  induction L with
+  | nil => intro _; rfl
+  | cons r L ih =>
+    intro h
+    simp only [formatRowsLoop, h r List.mem_cons_self,
+      ih (fun r' hr' => h r' (List.mem_cons_of_mem _ hr')), List.map_cons, List.flatten_cons,
+      List.append_assoc]
+
+/-- `Display` of a matrix satisfying the invariant is the text of its list of rows -/
+theorem display_spec (sh : α → String) (m : Matrix α) (h : m.Inv) :
+    m.display sh = .ok (Rows.display sh m.toRows) := by
+  have hn : Rows.nrows m.toRows = m.rows := length_toRows m
+  have hc : Rows.ncols m.toRows = m.columns := ncols_toRows m h
+  have hrow : ∀ r ∈ List.range m.rows,
+      formatRowLoop (fun c => (m.tryGet r c).map sh) m.columns (List.range m.columns) =
+        .ok (Rows.rowTokens sh m.toRows r) := by
+    intro r hr
+    rw [formatRowLoop_ok _ _ _ (by
+      intro c hc'
+      obtain ⟨x, hx⟩ := tryGet_isSome m h.1 (List.mem_range.mp hr) (List.mem_range.mp hc')
+      exact ⟨sh x, by simp [hx]⟩)]
+    unfold Rows.rowTokens
+    rw [hc]
+    congr 2
+    apply filterMap_congr'
+    intro c _
+    rw [cell_toRows, Option.map_map]
+    rfl
+  unfold display formatTokens
+  rw [formatRowsLoop_ok _ (Rows.rowTokens sh m.toRows) m.rows _ hrow]
+  simp only [Rows.display, Rows.displayTokens, hn, List.cons_append]
+
 end Matrix
 end EasyMl
